@@ -565,6 +565,9 @@ func LeafVariants(v *Val) []string {
 	case KBytes:
 		return []string{"b64-url", "b64-std-nopad", "b64-url-nopad"}
 	case KEnum:
+		if v.Enum.Shadowed {
+			return nil
+		}
 		return []string{"enum-prefixed"}
 	case KTimestamp:
 		// offsets that would push the local year outside 0000-9999 have no RFC 3339 spelling
